@@ -186,7 +186,7 @@ def value_items(b, read):
     return "// ---- verbatim from src/eval/value.rs\n" + "\n".join(out)
 
 
-def value_ctors(b, read, names):
+def value_ctors(b, read, names, ref_eq=False):
     import extract as _e
     ens = {"new_val_ref_with_no_source": "r == (SourcedValue{v, source: None})",
            "new_val_ref_with_source": "r == (SourcedValue{v, source: Some(source)})",
@@ -209,7 +209,12 @@ def value_ctors(b, read, names):
             b.dropped.append("value::new_str_from_string body (`s.into_bytes()`): external, result = UTF-8 bytes of s (uninterpreted string_bytes)")
             continue
         out.append(_e.annotate_fn(t, spec=f"\n    ensures {ens[n]},\n"))
-    return "pub mod value {\n    use super::*;\n// ---- verbatim from src/eval/value.rs\n" + "\n".join(out) + "\n}"
+    pre = ""
+    if ref_eq:
+        # value::ref_eq (Arc::ptr_eq): identity of two cells, uninterpreted under the A-lock model
+        pre = "pub uninterp spec fn same_cell<T>(a: Arc<Mutex<T>>, b: Arc<Mutex<T>>) -> bool;\n"
+        out.append("#[verifier::external_body]\npub fn ref_eq<T>(a: &Arc<Mutex<T>>, b: &Arc<Mutex<T>>) -> (r: bool)\n    ensures r == same_cell(*a, *b)\n{ unimplemented!() }")
+    return pre + "pub mod value {\n    use super::*;\n// ---- verbatim from src/eval/value.rs\n" + "\n".join(out) + "\n}"
 
 
 # ---- object cells under A-lock: std BTreeMap<String, SourcedValue> replaced by an assumed map contract
